@@ -54,6 +54,16 @@ func planFor(id string) *Plan {
 
 var plans = []Plan{
 	{
+		ID: "C15", Level: "exploration",
+		Rule: "(A) private_key_jwt client assertions and (B) JWT-bearer grants built from a valid claim set by 0-2 named defects (each claim absent / wrong type / wrong value / boundary time, exp in {0, 0.5, -1, past, string}, alg none / HS256 / RS384 / PS256 / ES256, kid right / absent / unknown, key registered / another client's or subject's / unregistered, scope outside the key's scopes, option flags for optional iat / jti, max duration, client authentication) presented inside short histories with replays of accepted assertions and time advances; oracle: a list of must-refuse reasons derived from the statement - acceptance with a non-empty list is a violation, a defect-free assertion must be accepted; (C) schedules: 2 (exhaustive) or 3 (bounded DFS) simultaneous presentations of the same assertion with the harness owning the order of their storage steps - exactly one succeeds. Non-trivial: an assertion with exactly one must-refuse reason, a replay, or a schedule in which the storage steps of different presentations alternate; distinct by defect lists / storage-step order.",
+		Jobs: []Job{
+			{Test: "TestC15_ClientAssertions", Shards: [2]int{6, 8}, Checks: [2]int{400, 10000}, Timeout: [2]int{600, 3000}},
+			{Test: "TestC15_JWTBearer", Shards: [2]int{6, 8}, Checks: [2]int{400, 10000}, Timeout: [2]int{600, 3000}},
+			{Test: "TestC15_Schedules", Shards: [2]int{8, 8}, Timeout: [2]int{600, 3000}},
+		},
+	},
+
+	{
 		ID: "C14", Level: "exploration",
 		Rule: "every OpenID Connect flow (code, id_token, id_token token, the three hybrid types, device, plus refresh) x signing key (RSA, P-256 as raw key and as JWK, P-384 / P-521 JWK with the matching alg header) x configured ID-token lifetime x session (subject empty or not, auth_time before / equal / after requested_at or absent, pre-set expiry future / past, session issuer, extra claims that collide with reserved names) x request (nonce incl. URL-special characters, max_age, prompt, id_token_hint own / other subject / expired / garbage / foreign key, openid consented or not) on both stores; oracle: every ID token found in any response is verified with the public key and checked for alg, aud, sub, iss, nonce, exp window, at_hash / c_hash against the access token / code of the same response (left-half hash chosen by alg, computed independently), c_hash absent on refresh, and no ID token may exist when a stated blocker holds. Non-trivial: at least one ID token was issued and checked, or exactly one blocker holds; distinct by (key, flow, session shape, request shape, count).",
 		Jobs: []Job{{Test: "TestC14_IDTokens", Shards: [2]int{16, 16}, Checks: [2]int{300, 8000}, Timeout: [2]int{600, 3000}}},
